@@ -166,7 +166,7 @@ theorem templates_as_modelled :
      ("CH", [], [("ch", ["{0}", "{1}"])]),
      ("CRX", ["theta"], [("s", ["{1}"]), ("cnot", ["{0}", "{1}"]), ("ry", ["{1}", "{-0.5 * {theta}}"]),
        ("cnot", ["{0}", "{1}"]), ("ry", ["{1}", "{0.5 * {theta}}"]), ("sdag", ["{1}"])]),
-     ("CRY", ["theta"], [("cnot", ["{0}", "{1}"]), ("ry", ["{1}", "-{0.5 * {theta}}"]), ("cnot", ["{0}", "{1}"]),
+     ("CRY", ["theta"], [("cnot", ["{0}", "{1}"]), ("ry", ["{1}", "{-0.5 * {theta}}"]), ("cnot", ["{0}", "{1}"]),
        ("ry", ["{1}", "{0.5 * {theta}}"])]),
      ("CRZ", ["lambda"], [("crz", ["{0}", "{1}", "{lambda}"])]),
      ("CS", [], [("crk", ["{0}", "{1}", "1"])]),
@@ -338,19 +338,28 @@ theorem neg_kron_bundle :
     syntaxError ⟨3, 0, [.gate (.kron (.kron (lib "H") (lib "X")) (lib "Z")) [0, 1, 2]]⟩ =
       some ⟨2, "{ { h q[0] | x q[1] } | z q[2] }", .nestedBundle⟩ := by decide +kernel
 
-/-- the texts of `U2`, `U3` (missing comma, stray `; `), `CRY` with a negative angle (`--`), reference parameters
-(printed by name; left inside an unevaluated `{…}` hole) -/
+/-- the texts of `U2`, `U3` (missing comma, stray `; `), reference parameters (printed by name; left inside an
+unevaluated `{…}` hole) -/
 theorem neg_parameter_text :
     syntaxErrorI ⟨1, 0, [.gate (.lib "U2" [.direct 1, .direct 2]) [0]]⟩ =
       some ⟨4, "rz q[0] 1", .badOperand "q[0] 1"⟩ ∧
     syntaxErrorI ⟨1, 0, [.gate (.lib "U3" [.direct 1, .direct 2, .direct 3]) [0]]⟩ =
       some ⟨4, "; rz q[0] 2", .unknownInstr ";"⟩ ∧
-    syntaxErrorI ⟨2, 0, [.gate (.lib "CRY" [.direct (-2)]) [0, 1]]⟩ =
-      some ⟨3, "ry q[1], --1", .badOperand "--1"⟩ ∧
     syntaxErrorI ⟨1, 0, [.gate (.lib "RX" [.ref "theta".toList 1]) [0]]⟩ =
       some ⟨2, "rx q[0], theta", .badOperand "theta"⟩ ∧
     syntaxErrorI ⟨2, 0, [.gate (.lib "CRX" [.ref "theta".toList 1]) [0, 1]]⟩ =
       some ⟨4, "ry q[1], {-0.5 * theta}", .badOperand "{-0.5 * theta}"⟩ := by decide +kernel
+
+/-- The former negative witness (finding C12-negative-angle-double-minus, fixed): the `CRY` template negates inside
+the evaluated hole (`{-0.5 * {theta}}`, as `CRX`, `CU3`, `CCRX`, `CCRY` do), so no literal `-` is glued in front of an
+evaluated (possibly negative) number: no line of the `CRY` template has text directly before a `{…}` hole other than
+the separator `, `, and the exported text of `CRY` with a negative angle parses. -/
+theorem cry_negative_angle_wellformed :
+    (Gen.cqGates.find? (·.name = "CRY")).map (·.kind) =
+      some (.template "cnot {0}, {1}\nry {1}, {-0.5 * {theta}}\ncnot {0}, {1}\nry {1}, {0.5 * {theta}}") ∧
+    syntaxErrorI ⟨2, 0, [.gate (.lib "CRY" [.direct (-2)]) [0, 1]]⟩ = none ∧
+    exportText Gen.cqGates stubNum ⟨2, 0, [.gate (.lib "CRY" [.direct (-2)]) [0, 1]]⟩ =
+      .ok "version 1.0\nqubits 2\ncnot q[0], q[1]\nry q[1], -1\ncnot q[0], q[1]\nry q[1], -1\n".toList := by decide +kernel
 
 /-- panics instead of errors: a condition on a classical bit that has no qubit (only `nr_qbits` bit names exist), a
 gate placed on too few qubits, more than 64 control bits -/
